@@ -229,33 +229,41 @@ fn expect_map(op: Op, res: i64, o: usize, s: usize) -> i64 {
 }
 
 /// Execute `op` through every entry point of one searcher; returns (entry, got).
-pub fn real_calls(sr: &dyn Searcher, op: Op, h: &[u8]) -> Vec<(&'static str, Result<i64, String>)> {
+/// The third component overrides the vector's expected value for entries whose answer is fixed by the
+/// documentation (raw forms with start >= end return None / 0).
+pub fn real_calls(sr: &dyn Searcher, op: Op, h: &[u8]) -> Vec<(&'static str, Result<i64, String>, Option<i64>)> {
     let s = h.as_ptr();
     let e = unsafe { s.add(h.len()) };
-    let mut out: Vec<(&'static str, Result<i64, String>)> = Vec::new();
+    let mut out: Vec<(&'static str, Result<i64, String>, Option<i64>)> = Vec::new();
     match op {
         Op::Find => {
-            out.push(("find", guard(|| opt_to_i(sr.find(h)))));
+            out.push(("find", guard(|| opt_to_i(sr.find(h))), None));
             if let Ok(Some(r)) = guard(|| unsafe { sr.find_raw(s, e) }).map(|x| x.map(|p| ptr_i(p, s))) {
-                out.push(("find_raw", Ok(r)));
+                out.push(("find_raw", Ok(r), None));
+                // the raw forms return None when start >= end (empty and inverted ranges)
+                out.push(("find_raw(start == end)", guard(|| ptr_i(unsafe { sr.find_raw(s, s) }.unwrap(), s)), Some(-1)));
+                out.push(("find_raw(start > end)", guard(|| ptr_i(unsafe { sr.find_raw(e, s) }.unwrap(), s)), Some(-1)));
             }
-            out.push(("iter.next", guard(|| opt_to_i(sr.iter(h).next()))));
+            out.push(("iter.next", guard(|| opt_to_i(sr.iter(h).next())), None));
         }
         Op::Rfind => {
-            out.push(("rfind", guard(|| opt_to_i(sr.rfind(h)))));
+            out.push(("rfind", guard(|| opt_to_i(sr.rfind(h))), None));
             if let Ok(Some(r)) = guard(|| unsafe { sr.rfind_raw(s, e) }).map(|x| x.map(|p| ptr_i(p, s))) {
-                out.push(("rfind_raw", Ok(r)));
+                out.push(("rfind_raw", Ok(r), None));
+                out.push(("rfind_raw(start == end)", guard(|| ptr_i(unsafe { sr.rfind_raw(e, e) }.unwrap(), s)), Some(-1)));
+                out.push(("rfind_raw(start > end)", guard(|| ptr_i(unsafe { sr.rfind_raw(e, s) }.unwrap(), s)), Some(-1)));
             }
-            out.push(("iter.next_back", guard(|| opt_to_i(sr.iter(h).next_back()))));
+            out.push(("iter.next_back", guard(|| opt_to_i(sr.iter(h).next_back())), None));
         }
         Op::Count => {
             if let Ok(Some(c)) = guard(|| sr.count(h)) {
-                out.push(("count", Ok(c as i64)));
+                out.push(("count", Ok(c as i64), None));
             }
             if let Ok(Some(c)) = guard(|| unsafe { sr.count_raw(s, e) }) {
-                out.push(("count_raw", Ok(c as i64)));
+                out.push(("count_raw", Ok(c as i64), None));
+                out.push(("count_raw(start > end)", guard(|| unsafe { sr.count_raw(e, s) }.unwrap() as i64), Some(0)));
             }
-            out.push(("iter.count", guard(|| sr.iter(h).count_rest() as i64)));
+            out.push(("iter.count", guard(|| sr.iter(h).count_rest() as i64), None));
         }
     }
     out
@@ -332,8 +340,9 @@ pub fn replay_one(idx: usize, v: &Value, rep: &Report, cnt: &mut Counts, o: &Opt
                 let run = json!({"exec": "real", "backend": sr.backend(), "needles": needles, "filler": filler,
                                  "stretch": [off, s, extra], "len": nlen, "align": align % 64, "expected": want});
                 check_events(rep, &ev, h, sr.backend(), &|| ctxv(run.clone()));
-                for (entry, got) in calls {
+                for (entry, got, fixed) in calls {
                     cnt.add("real_exec", 1);
+                    let want = fixed.unwrap_or(want);
                     match got {
                         Err(msg) => rep.finding(Class::Panic, &format!("{}::{entry} panicked: {msg}", sr.backend()), ctxv(run.clone())),
                         Ok(r) => {
